@@ -72,11 +72,13 @@ inductive Shape where
         next (162-169)   load; `if let Some(observers) = self.observers.rc_deref_mut().as_mut()
                             { observers.iter_mut().for_each(|p| p.p_next(..)) }`
                          observers ▸ (slotᵢ ▸ downstreamᵢ) for each i in list order
-        error/complete (171-194) load; `if let Some(observers) = self.observers.rc_deref_mut().take()
-                            { …filter(|o| !o.p_is_closed()).for_each(|o| o.p_error(..)) }`
+        error/complete (171-190) load; `if let Some(observers) = self.observers.rc_deref_mut().take()
+                            { observers.into_iter().for_each(|o| o.p_error(..)) }`
                          — the scrutinee guard lives for the body — observers ▸ for each i:
-                         `p_is_closed` = `is_finished()` (slotᵢ ▸ downstreamᵢ.is_finished) then
-                         `is_closed()` (slotᵢ), src/subscriber.rs:96-98; then `p_error` slotᵢ ▸ downstreamᵢ
+                         `p_error` slotᵢ ▸ downstreamᵢ.  (Before `fix: Subject::error/complete hand the
+                         terminal to every subscriber` a `.filter(|o| !o.p_is_closed())` stood in front:
+                         `is_finished()` (slotᵢ ▸ downstreamᵢ.is_finished) then `is_closed()` (slotᵢ),
+                         src/subscriber.rs:96-98 — still what `retain` does, `closedChecks`.)
         is_finished (196-198) `self.observers.rc_deref().is_none()` -/
   | subject (ds : Shapes)
   /-- `BehaviorSubject<_, SubjectThreads>` (src/subject/behavior_subject.rs:26-29):
@@ -144,8 +146,7 @@ def deliver : Kind → Nat → Nat → Shape → List Act
 def bcast : Kind → Nat → Nat → Shapes → List Act
   | _, _, _, .nil => []
   | .term, n, k, .cons d ds =>
-      (sect k (deliver .fin n (k + 1) d) ++ sect k [] ++ sect k (deliver .term n (k + 1) d))
-        ++ bcast .term n (k + 1 + cells d) ds
+      sect k (deliver .term n (k + 1) d) ++ bcast .term n (k + 1 + cells d) ds
   | .next, n, k, .cons d ds =>
       sect k (deliver .next n (k + 1) d) ++ bcast .next n (k + 1 + cells d) ds
   | .fin, n, k, .cons d ds =>
@@ -241,11 +242,7 @@ theorem bcast_ranked : ∀ (ds : Shapes) (kd : Kind) (n k : Nat) (hs : List Nat)
     cases kd <;> simp only [bcast]
     · exact RankedK.append (rk_sect hlt (deliver_ranked d .next n (k + 1) _ (by below)))
         (bcast_ranked ds .next n (k + 1 + cells d) hs (by below))
-    · exact RankedK.append
-        (RankedK.append
-          (RankedK.append (rk_sect hlt (deliver_ranked d .fin n (k + 1) _ (by below)))
-            (rk_sect_nil hlt))
-          (rk_sect hlt (deliver_ranked d .term n (k + 1) _ (by below))))
+    · exact RankedK.append (rk_sect hlt (deliver_ranked d .term n (k + 1) _ (by below)))
         (bcast_ranked ds .term n (k + 1 + cells d) hs (by below))
     · exact RankedK.append
         (RankedK.append (rk_sect hlt (deliver_ranked d .fin n (k + 1) _ (by below)))
